@@ -57,8 +57,10 @@ type Env struct {
 	HTTP     string
 	WS       string
 	HTTPPort int
-	WSPort   int
-	cancel   context.CancelFunc
+	// TempKeyDir is the scratch keystore directory created for an ephemeral node ("" otherwise)
+	TempKeyDir string
+	WSPort     int
+	cancel     context.CancelFunc
 }
 
 func freePort() int {
@@ -99,6 +101,7 @@ func Start(o Options) (*Env, error) {
 		params.AddChainConfig(chainName, chaincfg)
 	}
 
+	tempKeyDir := ""
 	def := node.NewDefaultConfig()
 	conf := &node.Config{
 		Context:           ctx,
@@ -124,8 +127,9 @@ func Start(o Options) (*Env, error) {
 			return nil, err
 		}
 		conf.KeyStoreDir = kd
+		tempKeyDir = kd
 	}
-	env := &Env{cancel: cancel}
+	env := &Env{cancel: cancel, TempKeyDir: tempKeyDir}
 	if o.Transports {
 		conf.IPCPath = "c18.ipc"
 		conf.WSOrigins = []string{"*"}
